@@ -41,15 +41,18 @@ CLAIMED = {
     "C02": dict(
         text="In the model a panic and a non-terminating loop are VALUES (Outcome.panic / outOfFuel with the site), so `every call returns` is `the result is ok or err`. Proved: "
              "the runner adds no failure of its own - if the parsers, the interpreter and the renderer return ok/err on every input then so do run and trace_changes, for any "
-             "number of groups, rules, lines and words (abstract runner, induction over the lists); every index trace_to_string uses is in range (from C16); on the literal "
-             "fragment of C06 the interpreter's scan loop never panics. REFUTED for the full grammar on the pinned tree: the interpreter port, which agrees with the code on the "
+             "number of groups, rules, lines and words (abstract runner, induction over the lists); the WORD PARSER component is discharged outright: Word::new returns a "
+             "word or a WordSyntaxError for EVERY text (parseWord_returns, Props/C02Word: progress of every loop iteration incl. the longest-match back-off, and no index "
+             "out of range in the diacritic code by a kernel check over the regenerated diacritic table); every index trace_to_string uses is in range (from C16); on the "
+             "literal fragment the interpreter's scan neither fails nor panics (C03.basic_scan_sound). REFUTED for the full grammar on the pinned tree: the interpreter port, which agrees with the code on the "
              "outcome class (ok / error kind / panic / hang) of ~27k generated cases per run, returns panic/outOfFuel on the families of known_findings.json (insertion "
-             "fall-backs D4, `$ > $` D3, numbers above usize::MAX D2, insertion past the end of the word D22/D23, empty optional D25, ...). The property itself is "
-             "evaluated on the implementation over three input streams (grammar, token mutations, noise; 60k quick / 1.5M thorough) under catch_unwind and the step-counter hook.",
+             "fall-backs D4, `$ > $` D3, numbers above usize::MAX D2, insertion exception past the end of the word D22, empty optional D25, ...; D6, D20, D23 were repaired). The "
+             "property itself is evaluated on the implementation over four input streams (grammar, token mutations, noise, short edge rules; 80k quick / 2M thorough) under "
+             "catch_unwind and the step-counter hook.",
         note="PARTIAL: the rule/alias lexers and parsers are not ported to Lean yet (their totality rests on the search only); stack depth, allocation failure and wall-clock time "
              "are outside the model; release profile (wrapping arithmetic) - a debug build panics in more places. Panics/hangs are keyed by file::function + message class "
-             "(recomputed from the current source, so line shifts do not matter); a failure at a new site is a VIOLATION.",
-        technique="Lean 4 theorems (runner returns if components do) + outcome-class correspondence of the interpreter port + three-stream search with step budget",
+             "and the shape of the failing rule (recomputed from the current source, so line shifts do not matter); a failure at a new site or of a new shape is a VIOLATION.",
+        technique="Lean 4 theorems (runner returns if components do; word parser returns on every text) + outcome-class correspondence of the interpreter port + four-stream search with step budget",
         design="§4 C02"),
     "C03": dict(
         category="translation_validation",
